@@ -123,7 +123,7 @@ Judge(e) ==
   (IF ~Sane(c2) THEN <<"Inv.ReadsKnownValue">>
    ELSE JudgeStep(e, c2) \o JudgeInv(e, c2))
 
-TraceInit == /\ content = Empty /\ tree = Nil /\ limit = 0
+TraceInit == /\ content = Empty /\ tree = Nil /\ limit = 0 /\ prov = "built"
              /\ l = 1 /\ bad = <<>> /\ prevOK = FALSE
              /\ TLCSet(1, [x \in {} |-> <<>>])
 
@@ -133,10 +133,14 @@ TraceNext ==
   /\ LET e  == Trace[l]
          c2 == Obs(e)
          j  == Judge(e)
-     IN  /\ content' = c2
-         /\ tree' = e.proj.tree
-         /\ limit' = IF e.event = "L" THEN e.v ELSE IF e.event \in {"R", "X", "Reset"} THEN 0 ELSE limit
-         /\ prevOK' = (j = <<>>)
+     IN  (* an event marked `fan` is one of several calls observed from the same state (the
+            state of the last Reset): the specification stays in that state *)
+         /\ content' = IF e.fan THEN content ELSE c2
+         /\ tree' = IF e.fan THEN tree ELSE e.proj.tree
+         /\ limit' = IF e.fan THEN limit
+                     ELSE IF e.event = "L" THEN e.v ELSE IF e.event \in {"R", "X", "Reset"} THEN 0 ELSE limit
+         /\ prevOK' = IF e.fan THEN prevOK ELSE (j = <<>>)
+         /\ prov' = "built"
          /\ bad' = bad \o Fresh(e.event, j)
          /\ IF j = <<>> /\ c2 \notin DOMAIN Cache THEN TLCSet(1, Cache @@ (c2 :> ProjKey(e.proj))) ELSE TRUE
 
